@@ -7,9 +7,12 @@ open Synap Synap.Proto Synap.Api Synap.Ops Synap.Np Synap.Engine
 
 instance : Transc Float := ⟨Float.exp, Float.log, Float.sqrt, Float.tanh, Float.pow⟩
 
+instance : IntCast Float := ⟨Float.ofInt⟩
+
 structure St where
   ts : TState Float := {}
   ctxs : List Ctx := []
+  iters : List (Nat × Nat) := []      -- (tensor, next position) of every live iterator
 
 def showArr (x : NDArray Float) : String := showNatList x.shape ++ "|" ++ showFloatList x.data
 
@@ -114,6 +117,88 @@ def run (s : St) (toks : List String) : St × String :=
       match Ops.apply s.ts op ins with
       | some (ts, ks) => ({ s with ts := ts }, ",".intercalate (ks.map (fun k => s!"t{k}")))
       | none => (s, "rejected")
+    | _, _ => (s, "bad-op")
+  -- sop <kind> <a> t<b> | s<bits>
+  | ["sop", kind, a, b] =>
+    let k? : Option SOp := match kind with
+      | "add" => some .addS | "mul" => some .mulS | "neg" => some .neg | "sub" => some (if b.startsWith "t" then .subT else .subS)
+      | "rsub" => some .rsubS | "div" => some (if b.startsWith "t" then .divT else .divS) | "rdiv" => some .rdivS | _ => none
+    let b? : Option (Nat ⊕ Float) :=
+      if b.startsWith "t" then ((b.drop 1).toString.toNat?).map Sum.inl
+      else if b.startsWith "s" then (parseFloat? (b.drop 1).toString).map Sum.inr else none
+    match k?, parseNat? a, b? with
+    | some k, some a, some b =>
+      match applySOp s.ts k a b with
+      | some (ts, r) => ({ s with ts := ts }, s!"t{r}")
+      | none => (s, "rejected")
+    | _, _, _ => (s, "bad-op")
+  -- loss <name> <mean|sum|none> <pred> <target> [labels]  (nn.losses.Loss.__call__: forward, then the reduction)
+  | "loss" :: name :: red :: a :: b :: rest =>
+    match parseNat? a, parseNat? b, parseOp? name rest with
+    | some a, some b, some op =>
+      match Ops.apply s.ts op [a, b] with
+      | some (ts, [l]) =>
+        if red = "none" then ({ s with ts := ts }, s!"t{l}")
+        else
+          let rop : Op Float := if red = "sum" then .sum .all false else .mean .all false
+          match Ops.apply ts rop [l] with
+          | some (ts, [r]) => ({ s with ts := ts }, s!"t{r}")
+          | _ => (s, "rejected")
+      | _ => (s, "rejected")
+    | _, _, _ => (s, "bad-op")
+  | ["iter", "new", i] =>
+    match (parseNat? i).bind (fun i => s.ts.vals[i]?.map (fun v => (i, v))) with
+    | some (i, v) => if v.shape.length = 0 then (s, "rejected") else ({ s with iters := s.iters ++ [(i, 0)] }, s!"it{s.iters.length}")
+    | none => (s, "bad-op")
+  | ["iter", "next", k] =>
+    match (parseNat? k).bind (fun k => s.iters[k]?.map (fun it => (k, it))) with
+    | some (k, (i, pos)) =>
+      match s.ts.vals[i]? with
+      | some v =>
+        if pos < v.shape.headD 0 then
+          match Ops.apply s.ts (.slice [.int pos]) [i] with
+          | some (ts, [r]) => ({ s with ts := ts, iters := s.iters.zipIdx.map (fun (x, j) => if j = k then (i, pos + 1) else x) }, s!"t{r}")
+          | _ => (s, "rejected")
+        else (s, "stop")
+      | none => (s, "bad-op")
+    | none => (s, "bad-op")
+  -- ctor zeros|ones v|t|l dims ; ctor eye n ; ctor arange a b c ; ctor like i 0|1
+  | ["ctor", kind, form, dims] =>
+    match parseNatList? dims with
+    | some d =>
+      let args := if form = "v" then Api.ShapeArgs.varargs d else if form = "t" then .tuple d else .list d
+      let v : Float := if kind = "ones" then 1.0 else 0.0
+      if kind = "like" then
+        match ctorLike s.ts (d.headD 0) (if form = "1" then 1.0 else 0.0) with
+        | some (ts, k) => ({ s with ts := ts }, s!"t{k}") | none => (s, "rejected")
+      else match ctorFull s.ts args v with
+        | some (ts, k) => ({ s with ts := ts }, s!"t{k}") | none => (s, "rejected")
+    | none => (s, "bad-op")
+  | ["eye", n] =>
+    match (parseNat? n).bind (ctorEye s.ts) with
+    | some (ts, k) => ({ s with ts := ts }, s!"t{k}") | none => (s, "rejected")
+  | ["arange", a, b, c] =>
+    match a.toInt?, b.toInt?, c.toInt? with
+    | some a, some b, some c =>
+      match ctorArange s.ts a b c with
+      | some (ts, k) => ({ s with ts := ts }, s!"t{k}") | none => (s, "rejected")
+    | _, _, _ => (s, "bad-op")
+  -- dtype of the gradient buffer: buffers are created by `zeros_like(data)` / `astype(self.dtype)` and only
+  -- ever updated in place, so a present buffer has the tensor's dtype
+  | ["gdtype", i] =>
+    match (parseNat? i).bind (fun i => (s.ts.g[i]?).bind (fun n => s.ts.dtypes[i]?.map (fun dt => (n, dt)))) with
+    | some (n, dt) => (s, if n.grad.isNone then "-" else match dt with | .f32 => "f32" | .f64 => "f64" | .i8 => "i8" | .i32 => "i32" | .i64 => "i64" | .bool => "bool")
+    | none => (s, "bad-op")
+  | ["dtype", i] =>
+    match (parseNat? i).bind (fun i => s.ts.dtypes[i]?) with
+    | some dt => (s, match dt with | .f32 => "f32" | .f64 => "f64" | .i8 => "i8" | .i32 => "i32" | .i64 => "i64" | .bool => "bool")
+    | none => (s, "bad-op")
+  | ["bw", r, sh, d, _gdt] =>       -- upstream gradient of another dtype: the root casts it to its own dtype
+    match parseNat? r, parseArr? sh d with
+    | some r, some g =>
+      match Api.backward s.ts r g with
+      | (ts, some tr) => ({ s with ts := ts }, "ok trace=" ++ showList showEv tr)
+      | (ts, none) => ({ s with ts := ts }, "rejected")
     | _, _ => (s, "bad-op")
   | ["bw", r, sh, d] =>
     match parseNat? r, parseArr? sh d with
